@@ -43,15 +43,16 @@ theorem genFalse_sound : ∀ (p : GP) (g : G), genFalse p = some g → okF p = t
     simp only [Outs, List.mem_singleton] at h; subst h
     simp [evalG, GVal.pyEq_refl]
   | ge w =>
-    intro g hg _ v h
+    intro g hg hk v h
     simp only [genFalse, Option.some.injEq] at hg; subst hg
     rcases cmpGen_outs _ _ _ _ _ _ _ _ (by intro k; left; rfl) h with ⟨a, rfl, hx⟩ | ⟨k, a, rfl, rfl, _, h1⟩ | ⟨n, a, hn, rfl, _, h1⟩ | h
     · obtain ⟨d, rfl⟩ := mem_dayList hx
       simp only [evalG, pyGe, pyCmp_dt, ofCmp, cmpInt_isGe, dayUs]
       simp; omega
-    · have := h1 _ rfl
-      have := nextDown_lt k
-      simp only [evalG, pyGe, pyCmp_flt, ofCmp, cmpInt_isGe]; simp; omega
+    · have hne : k ≠ .inf true := by rintro rfl; simp [okF, isNegInf, XF.val] at hk
+      have := XF.lt_of_le_of_lt (h1 _ rfl) (nextDownX_lt k hne)
+      simp only [XF.lt, Bool.not_eq_eq_eq_not, Bool.not_true] at this
+      simp only [evalG, pyGe_val, this]
     · have := h1 _ rfl
       simp only [evalG, pyGe, pyCmp_int_asInt hn, ofCmp, cmpInt_isGe]; simp [scale_le]; omega
     · simpa using h
@@ -63,7 +64,7 @@ theorem genFalse_sound : ∀ (p : GP) (g : G), genFalse p = some g → okF p = t
       simp only [evalG, pyGt, pyCmp_dt, ofCmp, cmpInt_isGt, dayUs]
       simp; omega
     · have := h1 _ rfl
-      simp only [evalG, pyGt, pyCmp_flt, ofCmp, cmpInt_isGt]; simp; omega
+      simp only [evalG, pyGt_val, XF.lt, this, Bool.not_true]
     · have := h1 _ rfl
       simp only [evalG, pyGt, pyCmp_int_asInt hn, ofCmp, cmpInt_isGt]; simp [scale_lt]; omega
     · simpa using h
@@ -185,6 +186,36 @@ theorem C10_and_left_raises_stream :
 /-- … on which `ge_p(datetime)` raises `TypeError` instead of the conjunction returning `False`. -/
 theorem C10_and_left_raises : evalG andRaises (.int 0) = .raised .typeError := by decide
 theorem C10_and_left_raises_guard : okF andRaises = false := by decide
+
+/-! ### The edge of the double range -/
+
+/-- **Boundary case `generate_false(ge_p(-sys.float_info.max))`.**  On every tape, at every position the
+value is `-inf` (`math.nextafter(-max, -inf)`), and it falsifies the predicate. -/
+theorem C10_ge_neg_maxF (g : G) (hg : genFalse (.ge (.flt (-maxF))) = some g) (raws : List Int) (fuel want : Nat) :
+    ∀ v ∈ (takeN fuel want g ⟨raws, []⟩).values, v = .inf true ∧ evalG (.ge (.flt (-maxF))) v = .ok false := by
+  intro v hv
+  have hs := C10_generate_false_sound _ g hg rfl raws fuel want v hv
+  have ho := takeN_outs fuel want _ _ v hv
+  simp only [genFalse, Option.some.injEq] at hg; subst hg
+  simp only [cmpGen, nextDownX_neg_maxF, floatsFrom_ninf] at ho
+  exact ⟨outs_floats_inf ho, hs⟩
+
+/-- Non-vacuity: the stream is `-inf, -inf, …`, without a draw. -/
+theorem C10_ge_neg_maxF_stream (raws : List Int) :
+    ((genFalse (.ge (.flt (-maxF)))).map fun g => (takeN 1 3 g ⟨raws, []⟩).values) = some [.inf true, .inf true, .inf true] := by
+  simp [genFalse, cmpGen, nextDownX_neg_maxF, floatsFrom_ninf, takeN, pull, XF.val, XF.lt_irrefl]
+
+/-- An infinite bound is outside the guard: nothing falsifies `ge_p(-math.inf)` among the floats, yet the
+float arm yields `-inf`. -/
+theorem C10_ge_ninf_outside :
+    okF (.ge (.inf true)) = false
+    ∧ (∀ raws, ((genFalse (.ge (.inf true))).map fun g => (takeN 1 1 g ⟨raws, []⟩).values) = some [.inf true])
+    ∧ evalG (.ge (.inf true)) (.inf true) = .ok true := by
+  refine ⟨rfl, fun raws => ?_, by decide⟩
+  simp [genFalse, cmpGen, nextDownX, nextUpX, XF.neg, floatsFrom_ninf, takeN, pull, XF.val]
+
+example : okF (.ge (.flt (-maxF))) = true := rfl
+example : okF (.gt (.inf false)) = true := rfl
 
 /-! ### Non-vacuity -/
 
